@@ -1,4 +1,5 @@
 import Lemmas.LogHandlers
+import Lemmas.LogHandlersErrs
 /-! # C13 — log handlers deliver each record whole, once, to every sink
 
 Property theorems only.  The definitions (`TL.render`, `TL.deliver`, `TL.withGroup`, `TL.withAttrs`, `TL.Buf.*`,
@@ -243,6 +244,34 @@ theorem runChild_cases (c : Child) :
     (∀ m, c.outcome = .err m → runChild c = some (.plain m)) ∧
     (∀ m, c.outcome = .panic m → runChild c = some (.recovered m)) := by
   refine ⟨fun h => ?_, fun m h => ?_, fun m h => ?_⟩ <;> simp [runChild, h]
+
+/-! ### the same on the heap of `*errs.Error` cells (the C11 model `Errs`), where a child's error value is an object
+that could be shared and modified.  `ML.accumulate h rets` is the loop `var result *errs.Error; result =
+errs.Append(result, err)` over the values `rets` the deliveries returned (`nilIface` for a success); the driver runs
+it on a heap that holds every sink's long-lived sentinel error and prints `Count`/`Message` of the sentinels after
+every record.  What the list model above cannot say — values there are immutable — is said here.  Not expressible
+even here: what a child does with its own error value between two calls, and stack traces (cells carry only a flag). -/
+
+/-- "Handle returns … the children's errors": on the heap, the returned aggregate holds exactly the errors of this
+    record's deliveries, in order (nil and typed-nil results contribute nothing; an aggregate returned by a child is
+    flattened), and the heap stays well formed so the statement applies to the next record -/
+theorem handle_errors_collected_heap (h : Errs.Heap) (rets : List Errs.Val) (hwf : Errs.WF h)
+    (hids : ∀ id, Errs.Val.ref id ∈ rets → id < h.size) :
+    Errs.argItems (ML.accumulate h rets).1 (ML.accumulate h rets).2 = rets.flatMap (Errs.argItems h) ∧
+    Errs.WF (ML.accumulate h rets).1 :=
+  ML.accumulate_items h rets hwf hids
+
+/-- **Handle never modifies an error value a child returned** (nor any other `*errs.Error` that existed before the
+    call): every pre-existing cell is bit for bit what it was — the aggregate is built from copies and fresh cells.
+    In particular a sentinel error a child returns on every call never accumulates other children's failures. -/
+theorem handle_keeps_child_errors (h : Errs.Heap) (rets : List Errs.Val) (hwf : Errs.WF h)
+    (hids : ∀ id, Errs.Val.ref id ∈ rets → id < h.size) :
+    (∀ i, i < h.size → (ML.accumulate h rets).1[i]? = h[i]?) ∧
+    (∀ id, id < h.size → Errs.items (ML.accumulate h rets).1 id = Errs.items h id ∧
+      Errs.count (ML.accumulate h rets).1 id = Errs.count h id) := by
+  refine ⟨ML.accumulate_frame h rets hwf hids, fun id hid => ?_⟩
+  have hi := ML.accumulate_keeps_items h rets hwf hids id hid
+  exact ⟨hi, by rw [Errs.count_eq_items, Errs.count_eq_items, hi]⟩
 
 /-- multilog's `Enabled`: some child is enabled -/
 theorem fanout_enabled_iff (cs : List Child) (level : Int) :
